@@ -190,9 +190,16 @@ def _flaky_serdes(serdes_mod, w, pos, spec):
                 self._w, self._pos, self._spec = w, pos, spec
 
             def _count(self, which):
-                c = self._w.serdes_calls.setdefault(self._pos, {"ser": 0, "de": 0})
+                c = self._w.serdes_calls.setdefault(self._pos, {"ser": 0, "de": 0, "det": 0})
                 c[which] += 1
-                if c[which] in self._spec.get(which, ()):
+                hit = c[which] in self._spec.get(which, ())
+                if which == "de" and self._spec.get("det"):
+                    # "det": the k-th decode of the recorded outcome of an operation that is already complete
+                    rec = self._w.backend.by_name(self._pos.split("#")[0])
+                    if rec is not None and rec["Status"] in ("SUCCEEDED", "FAILED", "TIMED_OUT", "STOPPED", "CANCELLED"):
+                        c["det"] += 1
+                        hit = hit or c["det"] in self._spec["det"]
+                if hit:
                     self._w.fire("serdes-error:" + which)
                     self._w.rec("serdes-fail", pos=self._pos, which=which, n=c[which])
                     raise OSError(f"blob store {'write' if which == 'ser' else 'read'} failed")
@@ -205,10 +212,28 @@ def _flaky_serdes(serdes_mod, w, pos, spec):
                 self._count("de")
                 tag = self._spec.get("tag", "F")
                 if not data.startswith(tag):
+                    # e.g. an external party answering a callback in another encoding
+                    self._w.rec("serdes-fail", pos=self._pos, which="format", n=0)
                     raise ValueError(f"not a {tag} payload")
                 return serdes_mod.EXTENDED_TYPES_SERDES.deserialize(data[1:], serdes_context)
         _XS["flaky"] = _Flaky
     return _XS["flaky"](w, pos, spec)
+
+
+class _EqCallable:
+    """A callable value object: equality and hash by specification, not by identity."""
+
+    def __init__(self, key, fn):
+        self.key, self.fn = key, fn
+
+    def __call__(self, ctx):
+        return self.fn(ctx)
+
+    def __eq__(self, other):
+        return isinstance(other, _EqCallable) and other.key == self.key
+
+    def __hash__(self):
+        return hash(self.key)
 
 
 def _digest(s):
@@ -296,7 +321,7 @@ class Interp:
             getattr(ctx.logger, st.get("level", "info"))(f"L:{pos}")
             return ["log"]
         if op == "raise":
-            ex_ = make_exc(st["cls"], st.get("msg", "user raise at " + pos) if "size" not in st else ("\u65e5" if st.get("uni") else "E") * st["size"], st.get("args"))
+            ex_ = make_exc(st["cls"], st.get("msg", "user raise at " + pos) if "size" not in st else ("\u65e5" if st.get("uni") else '"\n' if st.get("esc") else "E") * st["size"], st.get("args"))
             self.w.rec("user-raise", pos=pos, cls=st["cls"], inv_level=isinstance(ex_, self.exc.InvocationError))
             raise ex_
         if op == "item":
@@ -488,6 +513,11 @@ class Interp:
             d = decs[min(attempt, len(decs)) - 1]
             w.rec("wstrategy", pos=pos, attempt=attempt, state=canon(state), cont="cont" in d,
                   delay=d.get("cont"))
+            if st.get("ctor"):
+                # decisions built with the dataclass constructor, as the SDK's own tests do
+                if "cont" in d:
+                    return W.WaitForConditionDecision(should_continue=True, delay=D(seconds=d["cont"]))
+                return W.WaitForConditionDecision(should_continue=False, delay=D())
             if "cont" in d:
                 return W.WaitForConditionDecision.continue_waiting(D(seconds=d["cont"]))
             return W.WaitForConditionDecision.stop_polling()
@@ -505,6 +535,8 @@ class Interp:
             rec = self.w.backend.by_name(pos)
             self.w.rec("body-enter", pos=pos, bkind="child", status=None if rec is None else rec["Status"],
                        rc=bool(rec and (rec.get("ContextDetails") or {}).get("ReplayChildren")))
+            if st.get("setlog"):
+                child_ctx.set_logger(CapLogger(self.w))  # a user-supplied logger installed on the child context
             obs = self.run_seq(child_ctx, st["body"], pos + "/c", item)
             v = mkvalue(st["ret"]) if "ret" in st else obs
             self.w.rec("body-exit", pos=pos, bkind="child", v=canon(v))
@@ -529,7 +561,7 @@ class Interp:
         return C.CompletionConfig(min_successful=c.get("min"), tolerated_failure_count=c.get("tol"),
                                   tolerated_failure_percentage=c.get("pct"))
 
-    def _branch_body(self, pos, b, body, ret, item_wrap=False):
+    def _branch_body(self, pos, b, body, ret, item_wrap=False, setlog=False):
         w = self.w
 
         def run(child_ctx, item=None):
@@ -538,6 +570,8 @@ class Interp:
             w.rec("body-enter", pos=bpos, bkind="branch", parent=pos, index=b,
                   status=None if rec is None else rec["Status"],
                   rc=bool(rec and (rec.get("ContextDetails") or {}).get("ReplayChildren")))
+            if setlog:
+                child_ctx.set_logger(CapLogger(w))
             try:
                 obs = self.run_seq(child_ctx, body, bpos, item)
                 v = mkvalue(ret) if ret is not None else obs
@@ -555,8 +589,14 @@ class Interp:
         c = st.get("cfg")
         fns = []
         for b, br in enumerate(st["branches"]):
-            run = self._branch_body(pos, b, br["body"], br.get("ret"))
-            fns.append(lambda child_ctx, run=run, item=item: run(child_ctx, item))
+            run = self._branch_body(pos, b, br["body"], br.get("ret"), setlog=bool(br.get("setlog")))
+            fn = lambda child_ctx, run=run, item=item: run(child_ctx, item)  # noqa: E731
+            if st.get("eqfn"):
+                # value objects as branch callables (think frozen dataclass with __call__): branches with the same
+                # specification compare equal although they are different positions
+                import json as _json
+                fn = _EqCallable(_json.dumps([br["body"], br.get("ret")], sort_keys=True), fn)
+            fns.append(fn)
         cfg = None
         if c is not None:
             kw = {"max_concurrency": c.get("conc"), "completion_config": self._completion(c)}
